@@ -11,11 +11,95 @@ set_option linter.unusedSectionVars false
 namespace Cfr
 variable {α : Type} [Field α] [LinearOrder α] [IsStrictOrderedRing α]
 
+/-- characterisation of the accumulator loop when at most one element matches -/
+theorem findLastIdx_go_of_unique {β : Type} (f : β → Bool) (l : List β) (i : Nat) (r : Option Nat)
+    (huniq : ∀ a b (ha : a < l.length) (hb : b < l.length), f l[a] = true → f l[b] = true → a = b) :
+    findLastIdx.go f l i r = match l.findIdx? f with | some k => some (k + i) | none => r := by
+  induction l generalizing i r with
+  | nil => simp [findLastIdx.go]
+  | cons x xs ih =>
+    have hu' : ∀ a b (ha : a < xs.length) (hb : b < xs.length),
+        f xs[a] = true → f xs[b] = true → a = b := by
+      intro a b ha hb h1 h2
+      have := huniq (a + 1) (b + 1) (by simp; omega) (by simp; omega) (by simpa using h1)
+        (by simpa using h2)
+      omega
+    rw [findLastIdx.go, ih (i + 1) _ hu', List.findIdx?_cons]
+    by_cases hx : f x = true
+    · have hnone : xs.findIdx? f = none := by
+        rw [List.findIdx?_eq_none_iff]
+        intro y hy
+        obtain ⟨j, hj, rfl⟩ := List.mem_iff_getElem.mp hy
+        by_contra hne
+        have := huniq 0 (j + 1) (by simp) (by simp; omega) (by simpa using hx)
+          (by simpa using hne)
+        omega
+      simp [hx, hnone]
+    · simp only [hx]
+      cases h : xs.findIdx? f with
+      | none => simp
+      | some k => simp; omega
+
 /-- on a list in which at most one element satisfies `f`, "last match" and "first match" agree -/
 theorem findLastIdx_eq_findIdx? {β : Type} (f : β → Bool) (l : List β)
     (huniq : ∀ i j (hi : i < l.length) (hj : j < l.length), f l[i] = true → f l[j] = true → i = j) :
     findLastIdx f l = l.findIdx? f := by
-  sorry
+  unfold findLastIdx
+  rw [findLastIdx_go_of_unique f l 0 none huniq]
+  cases l.findIdx? f <;> simp
+
+/-- uniqueness of the match of a key predicate on a list with distinct keys -/
+theorem findLastIdx_key {β : Type} (g : β → Nat) (k : Nat) (l : List β) (hn : (l.map g).Nodup) :
+    findLastIdx (fun x => g x == k) l = l.findIdx? (fun x => g x == k) := by
+  apply findLastIdx_eq_findIdx?
+  intro i j hi hj h1 h2
+  have h1' : g l[i] = k := by simpa using h1
+  have h2' : g l[j] = k := by simpa using h2
+  have : (l.map g)[i]'(by simpa using hi) = (l.map g)[j]'(by simpa using hj) := by
+    simp [h1', h2']
+  exact (hn.getElem_inj_iff).mp this
+
+theorem importActions_congr (f1 f2 : (Nat → Bool) → List Nat → Option Nat) (acts : List Nat) (i : Nat)
+    (h : ∀ a, f1 (· == a) acts = f2 (· == a) acts) (l : List (Nat × α)) (dense : Strat α) :
+    importActions f1 acts i l dense = importActions f2 acts i l dense := by
+  induction l generalizing dense with
+  | nil => rfl
+  | cons x rest ih =>
+    obtain ⟨a, p⟩ := x
+    simp only [importActions, h a]
+    split
+    · split
+      · exact ih _
+      · rfl
+    · rfl
+
+theorem importLoop_congr
+    (fI1 fI2 : (PInfo → Bool) → List PInfo → Option Nat)
+    (fA1 fA2 : (Nat → Bool) → List Nat → Option Nat)
+    (fS1 fS2 : ((Nat × Nat) → Bool) → List (Nat × Nat) → Option Nat)
+    (infos : List PInfo) (singles : List (Nat × Nat))
+    (hI : ∀ l, fI1 (·.label == l) infos = fI2 (·.label == l) infos)
+    (hA : ∀ i a, fA1 (· == a) (infos.getD i default).actions = fA2 (· == a) (infos.getD i default).actions)
+    (hS : ∀ l, fS1 (·.1 == l) singles = fS2 (·.1 == l) singles)
+    (named : Named α) (dense : Strat α) (seen : List Bool) :
+    importLoop fI1 fA1 fS1 infos singles named dense seen
+      = importLoop fI2 fA2 fS2 infos singles named dense seen := by
+  induction named generalizing dense seen with
+  | nil => rfl
+  | cons e rest ih =>
+    obtain ⟨l, acts⟩ := e
+    simp only [importLoop, hI l, hS l]
+    split
+    · rename_i i _
+      rw [importActions_congr fA1 fA2 _ i (hA i)]
+      split
+      · exact ih _ _
+      · rfl
+    · split
+      · split
+        · exact ih _ _
+        · rfl
+      · rfl
 
 /-- **the hashing and the non-hashing import give identical outcomes on every input**: every
 candidate (any order, duplicates, foreign infosets, illegal actions, any weights), `Ok` and `Err`
@@ -23,13 +107,35 @@ alike, for every well-formed infoset table -/
 theorem stratIntoBox_eq_slow (infos : List PInfo) (singles : List (Nat × Nat)) (named : Named α)
     (hw : TablesWF infos singles) :
     stratIntoBox infos singles named = stratIntoBoxSlow infos singles named := by
-  sorry
+  have key : ∀ dense seen,
+      importLoop (α := α) (fun f l => findLastIdx f l) (fun f l => findLastIdx f l)
+        (fun f l => findLastIdx f l) infos singles named dense seen
+      = importLoop (fun f l => l.findIdx? f) (fun f l => l.findIdx? f) (fun f l => l.findIdx? f)
+        infos singles named dense seen := by
+    intro dense seen
+    apply importLoop_congr
+    · intro l
+      exact findLastIdx_key (·.label) l infos hw.labelsNodup
+    · intro i a
+      by_cases hi : i < infos.length
+      · have : infos.getD i default = infos[i] := by simp [List.getD_eq_getElem?_getD, hi]
+        rw [this]
+        exact findLastIdx_key id a _ (by simpa using hw.actionsNodup _ (List.getElem_mem hi))
+      · have : infos.getD i default = default := by
+          simp [List.getD_eq_getElem?_getD, Nat.le_of_not_lt hi]
+        rw [this]
+        rfl
+    · intro l
+      exact findLastIdx_key (·.1) l singles hw.singlesNodup
+  unfold stratIntoBox stratIntoBoxSlow importWith
+  simp only [key]
 
 /-- both players -/
 theorem fromNamed_eq_fromNamedEq (g : Game α) (one two : Named α)
     (h1 : TablesWF g.p1 g.s1) (h2 : TablesWF g.p2 g.s2) :
     fromNamed g one two = fromNamedEq g one two := by
-  sorry
+  unfold fromNamed fromNamedEq
+  rw [stratIntoBox_eq_slow _ _ _ h1, stratIntoBox_eq_slow _ _ _ h2]
 
 /-! ## the documented semantics (stated for the scan-based route; the other follows) -/
 
